@@ -10,7 +10,7 @@ import ast
 from ..alg import Poly, Q, monomials_upto, abs_eval, within_roundoff, is_zero
 from ..elems import ElemLib, to_poly
 from ..repo import AnalysisError, dotted, norm_text
-from ..xeval import Interp, XObj, Closure, XRaise
+from ..xeval import Interp, XObj, Closure, XRaise, Opaque
 from ..xarray import XArray, Lbl
 
 GE = "EasyFEA.FEM._group_elem._GroupElem"
@@ -186,13 +186,14 @@ def accessor_rules(ctx):
     """R6.6: the evaluators use the table they are named after and index it
     consistently."""
     repo = ctx.repo
-    r = ctx.rule("R6.6", "Get_X_pg evaluates self._X() through _Eval_Functions at the Gauss coordinates; _Eval_Functions stores [p,f,n] = F[n][f](*gp[p])", min_instances=9)
+    r = ctx.rule("R6.6", "Get_Hermitian_X_pg evaluates self._Hermitian_X() through _Eval_Functions at the Gauss coordinates; _Eval_Functions stores [p,f,n] = F[n][f](*gp[p])", min_instances=5)
     ge = repo.cls(GE)
     pairs = [("Get_N_pg", "_N"), ("Get_dN_pg", "_dN"), ("Get_ddN_pg", "_ddN"), ("Get_dddN_pg", "_dddN"), ("Get_ddddN_pg", "_ddddN")]
     eb = repo.cls(BEAM_MOD + "._EulerBernoulli")
     hpairs = [("Get_Hermitian_N_pg", "_Hermitian_N"), ("Get_Hermitian_dN_pg", "_Hermitian_dN"),
               ("Get_Hermitian_ddN_pg", "_Hermitian_ddN"), ("Get_Hermitian_dddN_pg", "_Hermitian_dddN")]
-    for ci, prs in ((ge, pairs), (eb, hpairs)):
+    # the Lagrange getters are decided by interpretation (R6.10); the structural form is kept for the Hermitian getters only
+    for ci, prs in ((eb, hpairs),):
         for getter, table in prs:
             f = repo.method(ci.qualname, getter)
             r.instance(fn=f.qualname)
@@ -281,6 +282,7 @@ def run(ctx):
     hermite_rules(ctx)
     accessor_rules(ctx)
     ctx.attempt(evaluation_path_rule, ctx, lib)
+    ctx.attempt(evaluated_derivative_rule, ctx, lib)
 
 
 def evaluation_path_rule(ctx, lib):
@@ -329,3 +331,60 @@ def evaluation_path_rule(ctx, lib):
             r.fail(fe.qualname, f"eval:{name}", fe.file, fe.lineno, "_Eval_Functions", f"{name}: {bad}")
         else:
             r.ok(f"{name}: N(nodes) == I through _Eval_Functions ({'integer' if pts.dtype == 'i' else 'float'} node coordinates)")
+
+
+def evaluated_derivative_rule(ctx, lib):
+    """R6.10: what the element hands to the operators is the EVALUATED table: Get_N_pg, Get_dN_pg, Get_ddN_pg, Get_dddN_pg and
+    Get_ddddN_pg are interpreted for every Lagrange element class on a two-point stand-in rule with rational points; entry
+    [p, d, n] must be the k-th pure partial derivative of N_n along xi_d (computed here by differentiating the exact
+    polynomial N_n, proven by R6.1-R6.3) at point p -- zero tables included only when the derivative IS zero (order < k)."""
+    from types import SimpleNamespace
+
+    repo = ctx.repo
+    ge = repo.cls(GE)
+    r = ctx.rule("R6.10", "Get_N_pg / Get_dN_pg / Get_ddN_pg / Get_dddN_pg / Get_ddddN_pg[p, d, n] == d^k N_n / d xi_d^k at the integration point p, for every Lagrange element class", min_instances=60)
+    getters = [("Get_N_pg", 0), ("Get_dN_pg", 1), ("Get_ddN_pg", 2), ("Get_dddN_pg", 3), ("Get_ddddN_pg", 4)]
+    PTS = {1: [(Q(1, 3),), (Q(-2, 5),)], 2: [(Q(1, 5), Q(1, 7)), (Q(2, 7), Q(3, 11))], 3: [(Q(1, 5), Q(1, 7), Q(1, 9)), (Q(2, 7), Q(1, 11), Q(1, 13))]}
+    for name in sorted(lib.names()):
+        ed = lib.get(name)
+        stN = ed.tables["N"]
+        if stN[0] != "ok":
+            continue
+        Ns = [stN[1][i, 0] for i in range(ed.nPe)]
+        vs = list(ed.vars)
+        pts = PTS[ed.dim]
+        for getter, k in getters:
+            f = repo.lookup_method(ed.cls, getter)
+            if f is None:
+                continue
+            r.instance(fn=f.qualname)
+            obj = XObj(ed.obj.cls, dict(ed.obj.attrs))
+            obj.attrs["Get_gauss"] = lambda mt=None, pts=pts, d=ed.dim: SimpleNamespace(coord=XArray((len(pts), d), [v for p in pts for v in p]), nPg=len(pts), weights=XArray((len(pts),), [Q(1, 2)] * len(pts)))
+            I = Interp(repo)
+            try:
+                out = I.call_function(f, [Opaque("matrixType")], self_obj=obj)
+            except XRaise as e:
+                nz = any(not _dk(Ni, v, k).is_zero() for Ni in Ns for v in vs)
+                if nz:
+                    r.fail(f.qualname, f"evaluated:{name}:{getter}", f.file, f.lineno, f"{name}.{getter}", f"{name}.{getter} raises {e} although the order-{k} derivatives of its shape functions are not zero")
+                else:
+                    r.ok()
+                continue
+            out = XArray.from_nested(out)
+            ncomp = 1 if k == 0 else ed.dim
+            bad = None
+            if out.shape != (len(pts), ncomp, ed.nPe):
+                bad = f"shape {out.shape}, expected {(len(pts), ncomp, ed.nPe)}"
+            else:
+                for p, pt in enumerate(pts):
+                    env = dict(zip(vs, pt))
+                    for c in range(ncomp):
+                        for n, Ni in enumerate(Ns):
+                            want = (_dk(Ni, vs[c], k) if k else Ni).eval(env)
+                            got = out[p, c, n]
+                            if bad is None and not is_zero(Poly.of(got) - want):
+                                bad = f"entry [p={p}, {vs[c] if k else 'value'}, node {n + 1}] is {got!r}, d^{k}N_{n + 1}/d{vs[c]}^{k} at {tuple(str(x) for x in pt)} is {want!r}"
+            if bad:
+                r.fail(f.qualname, f"evaluated:{name}:{getter}", f.file, f.lineno, f"{name}.{getter}", f"{name}.{getter}: {bad}: the evaluated table is not the derivative of the shape functions (operators built on it -- bending curvature, shear recovery -- use a wrong field)")
+            else:
+                r.ok(f"{name}.{getter} == d^{k}N at 2 points" if k == 3 else None)
